@@ -1138,6 +1138,11 @@ fn gen_acc_trace(rng: &mut Rng, o: &GenOpts, sweep_len: Option<usize>) -> AccTra
     if sweep_len.is_none() {
         let s = t.stream();
         t.chunks = Chunks::List(gen_chunks(rng, &s, n));
+    } else if crate::runner::small() && t.stream().len() > 8 {
+        // interpreter-sized runs: an over-long segment can push the stream past the sweep length
+        // that was asked for; 2^13 histories are too many for Miri
+        let s = t.stream();
+        t.chunks = Chunks::List(gen_chunks(rng, &s, n));
     }
     t
 }
